@@ -14,6 +14,11 @@ CLAIMED = {
          'an independent Python statement of C01 is evaluated on the implementation as well.',
          BASE + 'Modelled, not verified: inspect.getfullargspec (signatures arrive as data), Python argument binding (pyBind), '
          'copy.deepcopy of reference-free values = identity.'),
+ 'C10': ('Theorems vararg_required_rejected / missing_reported (exact list, signature order, stated against the overlay) / '
+         'all_filled_passes / marker_never_delivered / required_sig_validation hold for every signature, marker placement, store and scope; '
+         'the wrapper mirror is tied to gin.config by generated calls with markers in every position; an independent Python statement of '
+         'C10 (exact missing list parsed from the error, body not run, marker never received) is evaluated on the implementation.',
+         BASE + 'Modelled, not verified: inspect signatures, Python argument binding; the missing list is parsed from the error message.'),
  'C08': ('Theorems inv_reachable / matching_spec / matching_nodup / getMatch_spec / getAll_spec hold for every history of '
          'insertions, removals and clears and every query; the trie mirror is tied to gin/selector_map.py by running the same random '
          'operation histories on both; an independent naive set-of-names oracle (incl. minimal_selector resolve-back and minimality, '
